@@ -415,6 +415,19 @@ def enumerate_exprs(max_depth, scratch=None, cap_per_type=None, cap_from_depth=3
     seen = {e.name for e in out}
     for depth in range(1, max_depth + 1):
         produced = {}
+        if cap_per_type is not None and depth >= cap_from_depth:
+            # a capped level is built from an evenly spaced subset of the previous level's
+            # expressions (all leaves stay as second operands): the full product of a level that
+            # is going to be sub-sampled anyway is never materialised (it does not fit in memory)
+            keep = max(200, cap_per_type // 10)
+            thinned = {}
+            for t, g in level.items():
+                newx = g["new"]
+                if len(newx) > keep:
+                    step = len(newx) / float(keep)
+                    newx = [newx[int(i * step)] for i in range(keep)]
+                thinned[t] = dict(g, new=newx)
+            level = thinned
         for e in combinators(level, scratch, first_only_variants=(depth == 1)):
             if e.name in seen:
                 continue
